@@ -14,6 +14,10 @@ pub struct PeerSpec {
     /// use advance_frame_with_wait() instead of advance_frame()
     #[serde(default)]
     pub use_wait: bool,
+    /// this peer's game saves its states without a checksum (cell.save(frame, data, None)): it never reports
+    /// checksums, whatever the others do
+    #[serde(default)]
+    pub no_checksum: bool,
 }
 
 #[derive(Clone, Debug, Serialize, Deserialize, PartialEq, Eq, Hash)]
@@ -144,7 +148,7 @@ impl Scenario {
     pub fn basic(seed: u64, npeers: usize) -> Self {
         Scenario {
             seed,
-            peers: (0..npeers).map(|_| PeerSpec { locals: 1, delay: 0, slow: 0, use_wait: false }).collect(),
+            peers: (0..npeers).map(|_| PeerSpec { locals: 1, delay: 0, slow: 0, use_wait: false, no_checksum: false }).collect(),
             specs: vec![],
             max_pred: 8,
             sparse: false,
